@@ -704,6 +704,7 @@ func init() {
 			{ID: "C01.R5", Doc: "UTF-8 guard rejects no correctly encoded U+FFFD (and no valid rune)", Run: func(c *Ctx) { utf8GuardRule(c, "C01.R5", false, true) }},
 			{ID: "C01.R7", Doc: "the values the parser hands to Add/Set are stored unchanged: parseVal's table and the wrapper constructors (= C12.R1)", Run: func(c *Ctx) { c.R.Floor("C01.R7", runAs(c, "C01.R7", c12R1, nil), 10) }},
 			{ID: "C01.R6", Doc: "the parser machines accept every token sequence the serialiser can emit: per-level inclusion of RFC 8259 (= C03.R1)", Run: func(c *Ctx) { inclusionRule(c, "C01.R6") }},
+			{ID: "C01.R8", Doc: "the text String() produced reaches the machine unchanged: ParseList/ParseObject hand on exactly the text from the first root bracket and return the machine's result (= C03.R5)", Run: func(c *Ctx) { wrapperRule(c, "C01.R8") }},
 		},
 	})
 	register(&Property{
